@@ -16,6 +16,7 @@ import Operon.Model.Tmpl
   filt <id> <set>                    (public attribute re-assigned: instance.filters = builtins + the set's own)
   render <id> <sequence>             (synthesize on that instance)   -> ok <text> <warned names> <names of Protein.variables_bound>
   translate <id> <name>
+  trobj <id> <mrnaName|-> <sequence>  (translate(mRNA(sequence, name), **ctx): an mRNA object that is not registered)
 -/
 open Operon Operon.Proto Operon.Ribosome Operon.Tmpl
 
@@ -247,6 +248,10 @@ def step (st : DSt) (toks : List String) : DSt × String :=
     match getInst st id with
     | none => (st, "bad-op")
     | some i => (st, callGuard st "render" fun _ => renderAll st i (decodeCps s))
+  | ["trobj", id, _, s] =>
+    match getInst st id with
+    | none => (st, "bad-op")
+    | some i => (st, callGuard st "translate" fun _ => renderAll st i (decodeCps s))
   | ["translate", id, n] =>
     match getInst st id with
     | none => (st, "bad-op")
